@@ -413,7 +413,9 @@ def check_profile(p):
 
 #: the path string itself is part of what is offered (spaces, non-ASCII, no extension, relative, format characters)
 SIM_PATHS = [SIM_PATH, '/simfs/my ballots (final).blt', '/simfs/wähler-№1.BLT', 'ballots', './rel/ballots.blt',
-             '/simfs/100%s{0}.blt', '/simfs/' + 'x' * 200 + '.blt']
+             '/simfs/100%s{0}.blt', '/simfs/' + 'x' * 200 + '.blt',
+             # the path argument need not be a str: a pathlib object, a bytes path
+             'pathlib:/simfs/from pathlib.blt', 'bytes:/simfs/bytes-path.blt']
 
 
 def evaluate(R, data, io_fault=None, entry='path', clock=False, path=None):
@@ -426,6 +428,14 @@ def evaluate(R, data, io_fault=None, entry='path', clock=False, path=None):
     fs = simfs.SimFS()
     open_fault = io_fault if io_fault in ('ENOENT', 'EACCES', 'EISDIR', 'EMFILE') else None
     read_fault = io_fault if io_fault in ('EIO-before', 'EIO-after', 'ENOMEM-read') else None
+    path_arg = None
+    if isinstance(path, str) and path.startswith('pathlib:'):
+        import pathlib      # pylint: disable=import-outside-toplevel
+        path = path[len('pathlib:'):]
+        path_arg = pathlib.PurePosixPath(path)
+    elif isinstance(path, str) and path.startswith('bytes:'):
+        path = path[len('bytes:'):]
+        path_arg = path.encode('utf-8')
     fs.put(path or SIM_PATH, data, open_fault=open_fault, read_fault=read_fault)
     text = None
     if entry == 'data':
@@ -441,7 +451,7 @@ def evaluate(R, data, io_fault=None, entry='path', clock=False, path=None):
     res['entry'] = entry
     if entry == 'main' and getattr(R, 'Droop', None) is None:
         entry = res['entry'] = 'path'
-    sim_path = '' if io_fault == 'PATH-EMPTY' else (path or SIM_PATH)   # ElectionProfile(path='') names no file at all
+    sim_path = '' if io_fault == 'PATH-EMPTY' else (path_arg if path_arg is not None else (path or SIM_PATH))   # ElectionProfile(path='') names no file at all
     p = None
     exc = None
     budget = parser_budget(len(data))
